@@ -9,46 +9,69 @@
 EXTENDS IntegrationLoop, KKTAbs, Json, IOUtils, TLC, TLCExt, Sequences
 
 Tr == ndJsonDeserialize(IOEnv.IG_TRACE)
-VARIABLES i, lastres
-tvars == <<pc, iter, lev, status, why, dl, i, lastres>>
+VARIABLES i, lastres, known
+tvars == <<pc, iter, lev, status, why, dl, free, last, i, lastres, known>>
 Note(t, n) == TLCSet(1, Append(TLCGet(1), <<i, t, n>>))
 Chk(t, n, F) == IF F THEN TRUE ELSE Note(t, n)
 E == Tr[i]
+SetOf(s) == {s[k] : k \in 1..Len(s)}
 
-TInit == TLCSet(1, <<>>) /\ TLCSet(2, 0) /\ i = 1 /\ lastres = FALSE
+TInit == TLCSet(1, <<>>) /\ TLCSet(2, 0) /\ i = 1 /\ lastres = FALSE /\ known = FALSE
          /\ pc = "Top" /\ iter = 0 /\ lev = 0 /\ status = "none" /\ why = "none" /\ dl = FALSE
+         /\ free = {} /\ last = NoEvent
 
 Reset == /\ E.ev = "Reset"
          /\ pc' = "Top" /\ iter' = 0 /\ lev' = 0 /\ status' = "none" /\ why' = "none" /\ dl' = FALSE /\ lastres' = FALSE
+         /\ free' = {} /\ last' = NoEvent /\ known' = FALSE
 
-(* loop top: the residuum test (and, if it fails, the other termination tests) *)
+(* loop top: the free set the loop works with (the code re-derives it here and asserts equality), the residuum test *)
+(* and, if it fails, the other termination tests.  `known` says whether the model already predicts the free set:   *)
+(* not at the first top (create_filter at the start point) and not after a penalty update (recomputed).            *)
 TopEv == /\ E.ev = "Top"
          /\ lastres' = E.resLe
          /\ dl' = E.expired
-         /\ iter' = iter /\ lev' = lev
+         /\ iter' = iter /\ lev' = lev /\ last' = last
+         /\ free' = SetOf(E.free) /\ known' = TRUE
          /\ status' = E.status
          /\ why' = (CASE E.status = "Optimal" -> "residuum" [] E.status = "TimeLimit" -> "deadline"
                       [] E.status = "LocallyInfeasible" -> "infeasible" [] E.status = "Unbounded" -> "objlimit" [] OTHER -> why)
          /\ pc' = IF E.status = "none" THEN "Integrate" ELSE "Done"
          /\ Chk("M", "top.pc", pc = "Top")
          /\ Chk("P:C01", "optimal.iff.residuum", (E.status = "Optimal") <=> E.resLe)
-         /\ Chk("M", "top.is.spec.step", pc # "Top" \/ E.status \in {"TimeLimit"} \/ Top)
+         /\ Chk("M", "top.is.spec.step", pc # "Top" \/ E.status \in {"TimeLimit"} \/ TopCtl)
+         /\ Chk("M", "free.carried", known => SetOf(E.free) = free)
+         /\ Chk("M", "free.oracle", E.filterOK)
+         /\ Chk("M", "top.inbox", E.inBox)
 
 IntegrateEv ==
          /\ E.ev = "Integrate"
          /\ iter' = iter + 1
          /\ lev' = IF E.result = "Penalty" /\ lev < MaxRhoLev THEN lev + 1 ELSE lev
          /\ dl' = dl /\ lastres' = lastres
+         /\ last' = [res |-> E.result, trig |-> E.trig, j |-> E.j]
+         /\ free' = (CASE E.result = "Event" -> Flip(free, E.j)
+                       [] E.result = "Penalty" -> SetOf(E.freeAfter)
+                       [] OTHER -> free)
+         /\ known' = (E.result # "Penalty")          \* after a penalty update the set is recomputed for the new penalty
          /\ status' = (IF E.result = "Converged" THEN "Optimal" ELSE IF E.result = "Unbounded" THEN "Unbounded"
                        ELSE IF E.limitHit THEN "IterationLimit" ELSE "none")
          /\ why' = (IF E.result = "Converged" THEN "converged" ELSE IF E.result = "Unbounded" THEN "event"
                     ELSE IF E.limitHit THEN "limit" ELSE why)
          /\ pc' = IF status' = "none" THEN "Top" ELSE "Done"
          /\ Chk("M", "integrate.pc", pc = "Integrate")
+         /\ Chk("M", "event.trigger", E.result = "Event" <=> E.trig \in {"LB", "UB", "GRAD_FIXED"})
+         /\ Chk("M", "event.trigger.side", E.result = "Event" => TrigOK(free, E.trig, E.j))
+         /\ Chk("M", "event.flips.one", E.result = "Event" => SetOf(E.freeAfter) = Flip(free, E.j))
+         /\ Chk("M", "nonevent.keeps.free", E.result \notin {"Event", "Penalty"} => SetOf(E.freeAfter) = free)
+         /\ Chk("M", "penalty.times.ten", E.rhoMul = (IF E.result = "Penalty" THEN "x10" ELSE "same"))
+         /\ Chk("M", "first.deciding.event", E.decided = E.firstDeciding)
+         /\ Chk("M", "time.forward", E.tFwd)
+         /\ Chk("M", "pinned.kept", E.pinnedKept)
+         /\ Chk("P:C01", "next.inbox", E.inBox)
 
 ReturnEv ==
          /\ E.ev = "Return"
-         /\ UNCHANGED <<pc, iter, lev, status, why, dl, lastres>>
+         /\ UNCHANGED <<pc, iter, lev, status, why, dl, lastres, free, last, known>>
          /\ Chk("M", "return.status", E.status = status)
          /\ Chk("P:C01", "optimal.only.if.converged", E.status = "Optimal" => why \in {"residuum", "converged"})
          /\ Chk("P:C01", "return.kkt", E.status = "Optimal" => UserKKT(E.kkt))
